@@ -58,7 +58,7 @@ func init() {
 		Explanation: "Under the lock-class assumption, (A1-DB) every access to database state happens with the database mutex held on every path from every root and (lock-balanced) no function returns with the mutex possibly still held; together with (A3, when present) one critical section per command this is the static form of strict two-phase locking with one lock, which implies atomicity of single-database commands.",
 		NotDecided:  "real-time ordering across connections beyond mutual exclusion; cross-database scenarios; wrap-around of the 27-bit command id compared by the re-entrant lock",
 		Assumptions: append([]string{"the owner-token protocol: ds.multiLock equals a command's id only while the EXEC that published it holds ds.mu, and cmdContext.multi is true for a queued command only while that EXEC replays it"}, commonAssumptions...),
-		Rules:       []func(*Ctx){ruleA1("A1-guarded", onlyDB), ruleLockBalanced(nil)},
+		Rules:       []func(*Ctx){ruleA1("A1-guarded", onlyDB), ruleLockBalanced(nil), ruleA3},
 	})
 	register(&PropSpec{
 		ID: "C09",
